@@ -223,6 +223,21 @@ func (match6Engine) Run(ctx *fw.Ctx, cs any) {
 		} else {
 			ctx.Count("match6.dropped", 1)
 		}
+		// a request the server answers when it arrives directly must also be answered when it arrives through
+		// Relay-Forward layers (with the mirrored Relay-Reply envelope, checked by Judge6)
+		if m.plainAt >= 0 && m.plainAt < len(out.Res) && len(out.Res[m.plainAt].Caps) == 1 && len(reps) == 0 && codecOK {
+			if layers, _, err := pkt.Unwrap6(m.data); err == nil {
+				allFwd := true
+				for _, l := range layers {
+					if l.Type != 12 {
+						allFwd = false
+					}
+				}
+				if allFwd {
+					ctx.Viol("C12", "relayed-request-not-answered", "%s: the message is answered when sent directly, but not when relayed through %d Relay-Forward layers: request %x...", conf, len(layers), m.data[:min(len(m.data), 80)])
+				}
+			}
+		}
 		for _, f := range model.Judge6(rq, reps) {
 			ctx.Viol(f.Prop, f.Sig, "%s: request %x...: %s", conf, m.data[:min(len(m.data), 80)], f.Msg)
 		}
